@@ -35,6 +35,9 @@ From RX.Spec Require CstU CstNs CstFull CstFullS5.
 From RX.Proofs Require Import LexerProofs RejectProofs CstMain CstUMain.
 From RX.Proofs Require CstNsView CstFullMain CstFullS5 CstFullS6Main CstFullS6Embed5.
 From RX.Spec Require CstFullS4 CstFullS6.
+From RX.Proofs Require ApiViewAcc ApiView ApiViewProofs ApiViewCapstone.
+From RX.Spec Require CstFullS7.
+From RX.Proofs Require CstFullS7Main.
 Open Scope N_scope.
 
 (* ---- Proofs/CstMain.v ---- *)
@@ -60,6 +63,94 @@ Theorem C03_layout_insensitive :
                 view (Cst.render c1) d1 = view (Cst.render c2) d2.
 Proof. exact layout_insensitive. Qed.
 Print Assumptions C03_layout_insensitive.
+
+(* ---- Proofs/ApiViewCapstone.v ---- *)
+Module G1.
+Import RX.Spec.CstFull. Import RX.Spec.CstFullS6. Import RX.Proofs.ApiView. Import RX.Proofs.ApiViewProofs. Import RX.Proofs.ApiViewCapstone.
+Theorem C03_parse_render_sem_full_s6_api :
+  forall (d : S6.doc) (opt : options),
+  S6.wf_doc d = true ->
+  (S6.has_dtd d = true -> allow_dtd opt = true) ->
+  nodes_limit opt <= u32_max ->                                    (* a u32 *)
+  N.of_nat (length (S6.sem d)) < nodes_limit opt ->
+  N.of_nat (length (S6.sem d)) < u32_max ->
+  N.of_nat (S6.nattrs d) < u32_max ->
+  S6.distinct_decls_le d (N.to_nat 65535) ->
+  1 + N.of_nat (S6.ns_cost d) <= u32_max ->
+  exists doc, parse (S6.render d) opt = Ok doc /\ api_view (S6.render d) doc = Some (S6.sem d).
+Proof. exact parse_render_sem_full_s6_api. Qed.
+Print Assumptions C03_parse_render_sem_full_s6_api.
+
+Theorem C03_hoist_prolog_insensitive_full_s6_api :
+  forall (d1 d2 : S6.doc) opt,
+  S6.wf_doc d1 = true -> S6.wf_doc d2 = true -> allow_dtd opt = true -> nodes_limit opt <= u32_max -> S6.sem d1 = S6.sem d2 ->
+  N.of_nat (length (S6.sem d1)) < nodes_limit opt -> N.of_nat (length (S6.sem d1)) < u32_max ->
+  N.of_nat (S6.nattrs d1) < u32_max ->
+  S6.distinct_decls_le d1 (N.to_nat 65535) -> S6.distinct_decls_le d2 (N.to_nat 65535) ->
+  1 + N.of_nat (S6.ns_cost d1) <= u32_max -> 1 + N.of_nat (S6.ns_cost d2) <= u32_max ->
+  exists x1 x2, parse (S6.render d1) opt = Ok x1 /\ parse (S6.render d2) opt = Ok x2 /\
+                api_view (S6.render d1) x1 = api_view (S6.render d2) x2.
+Proof. exact hoist_prolog_insensitive_full_s6_api. Qed.
+Print Assumptions C03_hoist_prolog_insensitive_full_s6_api.
+
+End G1.
+
+(* ---- Proofs/ApiViewProofs.v ---- *)
+Module G2.
+Import RX.Proofs.ApiViewAcc. Import RX.Proofs.ApiView. Import RX.Proofs.ApiViewProofs.
+Theorem C03_api_view_agrees :
+  forall text opt d,
+  valid_utf8_b text = true -> nodes_limit opt <= u32_max -> parse text opt = Ok d ->
+  api_view text d = CstNsView.view text d.
+Proof. exact api_view_agrees. Qed.
+Print Assumptions C03_api_view_agrees.
+
+Theorem C03_api_view_defined :
+  forall text opt d,
+  valid_utf8_b text = true -> nodes_limit opt <= u32_max -> parse text opt = Ok d ->
+  exists vs, api_view_res text d = Ok vs /\ CstNsView.view text d = Some vs.
+Proof. exact api_view_defined. Qed.
+Print Assumptions C03_api_view_defined.
+
+End G2.
+
+(* ---- Proofs/CstFullS7Main.v ---- *)
+Module G3.
+Import RX.Spec.CstFull. Import RX.Spec.CstFullS6. Import RX.Spec.CstFullS7. Import RX.Proofs.CstNsView. Import RX.Proofs.ApiView. Import RX.Proofs.CstFullS7Main.
+Theorem C03_parse_render_sem_full_s7 :
+  forall (d : S7.doc) (opt : options),
+  S7.wf_doc d = true ->
+  (S7.has_dtd d = true -> allow_dtd opt = true) ->                (* a DOCTYPE needs the option *)
+  N.of_nat (length (S7.sem d)) < nodes_limit opt ->               (* room for all nodes + the Root *)
+  N.of_nat (length (S7.sem d)) < u32_max ->                        (* of the MEANING: entities add nodes *)
+  N.of_nat (S7.nattrs d) < u32_max ->                              (* the attribute rows of the meaning *)
+  S7.distinct_decls_le d (N.to_nat 65535) ->                       (* at most 65535 distinct declared bindings *)
+  1 + N.of_nat (S7.ns_cost d) <= u32_max ->                        (* the namespace table fits *)
+  exists doc, parse (S7.render d) opt = Ok doc /\ view (S7.render d) doc = Some (S7.sem d).
+Proof. exact parse_render_sem_full_s7. Qed.
+Print Assumptions C03_parse_render_sem_full_s7.
+
+Theorem C03_parse_render_sem_full_s7_api :
+  forall (d : S7.doc) (opt : options),
+  S7.wf_doc d = true ->
+  (S7.has_dtd d = true -> allow_dtd opt = true) ->
+  nodes_limit opt <= u32_max ->                                    (* a u32 *)
+  N.of_nat (length (S7.sem d)) < nodes_limit opt ->
+  N.of_nat (length (S7.sem d)) < u32_max ->
+  N.of_nat (S7.nattrs d) < u32_max ->
+  S7.distinct_decls_le d (N.to_nat 65535) ->
+  1 + N.of_nat (S7.ns_cost d) <= u32_max ->
+  exists doc, parse (S7.render d) opt = Ok doc /\ ApiView.api_view (S7.render d) doc = Some (S7.sem d).
+Proof. exact parse_render_sem_full_s7_api. Qed.
+Print Assumptions C03_parse_render_sem_full_s7_api.
+
+Theorem C03_s6_in_s7 :
+  forall d : S6.doc, S6.wf_doc d = true ->
+  S7.wf_doc d = true /\ S7.render d = S6.render d /\ S7.sem d = S6.sem d /\ S7.has_dtd d = S6.has_dtd d.
+Proof. exact s6_in_s7. Qed.
+Print Assumptions C03_s6_in_s7.
+
+End G3.
 
 (* ---- Proofs/CstUMain.v ---- *)
 Theorem C03_render_valid_utf8 :
@@ -91,7 +182,7 @@ Proof. exact layout_insensitive_u. Qed.
 Print Assumptions C03_layout_insensitive_u.
 
 (* ---- Proofs/CstFullS6Main.v ---- *)
-Module G2.
+Module G5.
 Import RX.Spec.CstFull. Import RX.Spec.CstFullS4. Import RX.Spec.CstFullS6. Import RX.Proofs.CstNsView. Import RX.Proofs.CstFullS6Main.
 Theorem C03_parse_render_sem_full_s6 :
   forall (d : S6.doc) (opt : options),
@@ -125,10 +216,10 @@ Theorem C03_s4_in_s6 :
 Proof. exact s4_in_s6. Qed.
 Print Assumptions C03_s4_in_s6.
 
-End G2.
+End G5.
 
 (* ---- Proofs/CstFullS6Embed5.v ---- *)
-Module G3.
+Module G6.
 Import RX.Spec.CstFull. Import RX.Spec.CstFullS5. Import RX.Spec.CstFullS6. Import RX.Proofs.CstFullS6Main. Import RX.Proofs.CstFullS6Embed5.
 Theorem C03_s5_in_s6 :
   forall d : S5.doc, S5.wf_doc d = true ->
@@ -137,10 +228,10 @@ Theorem C03_s5_in_s6 :
 Proof. exact s5_in_s6. Qed.
 Print Assumptions C03_s5_in_s6.
 
-End G3.
+End G6.
 
 (* ---- Proofs/CstFullS5.v ---- *)
-Module G4.
+Module G7.
 Import RX.Spec.CstFull. Import RX.Spec.CstFullS5. Import RX.Proofs.CstNsView. Import RX.Proofs.CstFullMain. Import RX.Proofs.CstFullS5.
 Theorem C03_parse_render_sem_full_s5 :
   forall (d : S5.doc) (opt : options),
@@ -166,10 +257,10 @@ Theorem C03_prolog_insensitive_full_s5 :
 Proof. exact prolog_insensitive_full_s5. Qed.
 Print Assumptions C03_prolog_insensitive_full_s5.
 
-End G4.
+End G7.
 
 (* ---- Proofs/LexerProofs.v ---- *)
-Module G5.
+Module G8.
 Local Notation token := Tokenizer.token.
 Theorem C03_parse_comment_post :
   forall (text : bytes), forall s acc s' acc', SInv text s ->
@@ -256,10 +347,10 @@ Theorem C03_parse_element_tokens :
 Proof. exact parse_element_tokens. Qed.
 Print Assumptions C03_parse_element_tokens.
 
-End G5.
+End G8.
 
 (* ---- Proofs/RejectProofs.v ---- *)
-Module G6.
+Module G9.
 Local Notation token := Tokenizer.token.
 Theorem C03_ok_document_shape :
   forall text dtd toks,
@@ -280,4 +371,4 @@ Theorem C03_ok_no_text_before_root :
 Proof. exact ok_no_text_before_root. Qed.
 Print Assumptions C03_ok_no_text_before_root.
 
-End G6.
+End G9.
